@@ -812,9 +812,31 @@ def nontrivial(case, data):
     return False
 
 
+_AS_CAP = 8 << 30
+_as_capped = []
+
+
+def _cap_address_space():
+    """Once per worker process: an allocation far beyond anything a file of a few MiB justifies fails at once with MemoryError (reported as
+    a violation by the battery) instead of driving the machine into swap for minutes."""
+    if _as_capped:
+        return
+    _as_capped.append(True)
+    try:
+        import resource
+        soft, hard = resource.getrlimit(resource.RLIMIT_AS)
+        cap = _AS_CAP if hard == resource.RLIM_INFINITY else min(_AS_CAP, hard)
+        if soft == resource.RLIM_INFINITY or soft > cap:
+            resource.setrlimit(resource.RLIMIT_AS, (cap, hard))
+    except Exception:  # noqa - no such limit on this platform: the budgets still apply
+        pass
+
+
 def run_case(ctx, case):
     ELFFile, ELFError = lib()
     data = materialize(case)
+    if not case.get('bb'):
+        _cap_address_space()
     if case.get('bb'):
         # replay of a finding of the -bb child: one input, in a child interpreter again
         import base64
@@ -1073,6 +1095,17 @@ def enum_alloc(tier):
                     c = make_case(src, muts, 'alloc')
                     c['mem'] = True
                     yield c
+                    if i == 0 and typ is None:
+                        # header 0 with the escapes switched on: its size / info field then is a *count* (sections, segments), which must
+                        # not become an allocation either (a list or cache sized by the claimed count)
+                        for lab, v in (('eh.e_shnum', 0), ('eh.e_phnum', 0xffff)):
+                            if lab in by:
+                                fe = by[lab]
+                                fld = fs if lab == 'eh.e_shnum' else by['sh[0].sh_info']
+                                val = size if lab == 'eh.e_shnum' else min(size, 0xffffffff)
+                                c = make_case(src, [['set', fld['label'], fld['off'], fld['size'], val], ['set', fe['label'], fe['off'], fe['size'], v]], 'alloc')
+                                c['mem'] = True
+                                yield c
                     if 'eh.e_shstrndx' in by and i:
                         fe = by['eh.e_shstrndx']
                         c = make_case(src, muts + [['set', fe['label'], fe['off'], fe['size'], i]], 'alloc')
